@@ -11,6 +11,11 @@ Model of
   * `save_module_symbol_file()` (symbol.c:1289): header lines and
     `"%016lx %08x %c %s\n"` per symbol, nothing at all for an empty table.
 
+  * `save_module_symtabs()` (symbol.c:1359) as `saveAll`: `saveInto` over all modules in turn — the
+    writer's naming decision (already saved = same path name AND same build-id in the header of
+    `<base>.sym`, else `make_new_symbol_filename`), which `selectSymName` (the reader) has to agree
+    with: `c10_symfile_writer_reader_agree`.
+
 A file is a `List Char`.  Deviations, all on inputs where the C code has undefined or
 memory-unsafe behaviour and which the harness never generates: (1) a line that ends right
 after `"<addr> "` or `"<addr> <size> "` makes the C code read the stale byte behind the
@@ -304,6 +309,23 @@ def moduleTable (d : SymDir) (withSyms : Bool) (mname mbid : List Char) : List S
   match d.get (selectSymName d withSyms mname mbid) with
   | some text => load 0 text
   | none => []
+
+/-! ### the writer's side of the file naming: `save_module_symtabs` over all modules -/
+
+/-- a module as `save_module_symtabs` sees it: path name, build-id read from the file, table -/
+structure Mod where
+  path : List Char
+  bid : List Char
+  tab : List Sym
+
+/-- `<dir>/<basename>.sym` -/
+def primaryName (m : Mod) : List Char := basename m.path ++ ".sym".toList
+/-- the name `make_new_symbol_filename` gives the module -/
+def altName (m : Mod) : List Char := newSymName (primaryName m) m.path m.bid
+
+/-- `save_module_symtabs(dirname)`: every module in turn (any order) into the directory -/
+def saveStep (d : SymDir) (m : Mod) : SymDir := saveInto d m.path m.bid m.tab
+def saveAll (ms : List Mod) : SymDir := ms.foldl saveStep []
 
 /-! ### predicates on tables used by the theorems and the monitor -/
 
